@@ -53,6 +53,8 @@ def groups(tier):
     out = [('poison[%s,n=%d,order=%d]' % c, ('poison',) + c) for c in cf]
     out += [('history[%s,n=%d,order=%d]' % c, ('history',) + c) for c in cf]
     out += [('cache-invariant', ('ci',)), ('shared-state-scan', ('scan',)), ('threads', ('threads',))]
+    # a step generator reused across calls / shared by objects yields what a fresh one yields (generator shared with C10)
+    out.append(('contract:generator-reuse', ('dep', 'C10', 'run_scale', (tier,), {})))
     return out
 
 
@@ -536,6 +538,9 @@ def run_threads():
 
 
 def run_group(args):
+    if args[0] == 'dep':
+        import importlib
+        return getattr(importlib.import_module('props.' + args[1]), args[2])(*args[3], **args[4])
     if args[0] == 'poison':
         return run_poison(*args[1:])
     if args[0] == 'history':
@@ -545,6 +550,9 @@ def run_group(args):
 
 def replay_case(ob):
     import re
+    if ob['name'].startswith('contract:generator-reuse/'):
+        from . import C10
+        return C10.replay_case(dict(ob, name='scale/' + ob['name'].split('/', 1)[1]))
     if 'content-of-FD_RULES-at-import' in ob['name']:
         return dict(kind='C09.cache0')
     if '/T:' in ob['name']:
